@@ -221,10 +221,19 @@ def wl_laws(run, rng, idx):
     A = G.build(tkind, araw)
     B = G.build(tkind, braw)
     MA, MB = G.row_matrix(tkind, araw), G.row_matrix(tkind, braw)
+    check_laws(run, mon, kind, n, oshape, ashape, bshape, tkind, cx, raw, X, A, B, MA, MB,
+               case, idx)
+
+
+def check_laws(run, mon, kind, n, oshape, ashape, bshape, tkind, cx, raw, X, A, B, MA, MB,
+               case, idx, label=None):
+    """the law triples for one (X, A, B); MA, MB are the row matrices of A, B
+    known independently of the calls under test."""
+    from geometry_tools import projective as P, hyperbolic as H
     cA = float(np.max(np.linalg.cond(MA)))
     cB = float(np.max(np.linalg.cond(MB)))
     tol = BASE_TOL * (1.0 + cA * cB)
-    sig = (kind, n, oshape, ashape, bshape, tkind, "complex" if cx else "real")
+    sig = (kind, n, oshape, ashape, bshape, label or tkind, "complex" if cx else "real")
 
     # non-triviality of the draw (independent of the library)
     noncomm = float(np.max(np.abs(MA @ MB - MB @ MA))) if ashape == bshape == () else 1.0
@@ -307,6 +316,103 @@ def wl_laws(run, rng, idx):
         run.sample({"kind": kind, "dimension": n, "object_shape": list(oshape),
                     "A_shape": list(ashape), "B_shape": list(bshape), "maps": tkind,
                     "A(row matrix)": MA})
+
+
+LIB_MAPS = ["origin_to", "standard_rotation", "standard_loxodromic", "sl2_iso",
+            "reflection_across", "isometry_to", "elliptic", "timelike_to"]
+X_CLASSES = ["bulk", "mixed-sign-and-scale", "near-boundary", "near-origin"]
+
+
+def library_isometry(rng, n, which):
+    """an isometry produced by one of the library's own constructors (the
+    'programs' part of the quantifier); None when the constructor does not
+    exist in this dimension."""
+    from geometry_tools import hyperbolic as H
+    if which == "origin_to":
+        return H.Point(G.interior(rng, n, ())).origin_to()
+    if which == "standard_rotation":
+        if n < 2:
+            return None
+        return H.Isometry.standard_rotation(float(rng.uniform(-6, 6)), dimension=n)
+    if which == "standard_loxodromic":
+        return H.Isometry.standard_loxodromic(n, float(np.exp(rng.uniform(-1.2, 1.2))))
+    if which == "sl2_iso":
+        if n != 2:
+            return None
+        return H.sl2_iso(c04.rand_sl2(rng, ()))
+    if which == "reflection_across":
+        if n < 2:
+            return None
+        return H.Hyperplane(G.exterior(rng, n, ())).reflection_across()
+    if which == "isometry_to":
+        if n < 2:
+            return None
+        P1, Q1 = G.separated_pair(rng, n, (), G.interior)
+        P2, Q2 = G.separated_pair(rng, n, (), G.interior)
+        t1 = H.Point(P1).unit_tangent_towards(H.Point(Q1))
+        t2 = H.Point(P2).unit_tangent_towards(H.Point(Q2))
+        return t1.isometry_to(t2)
+    if which == "elliptic":
+        return H.Isometry.elliptic(n, rh.rand_orth(rng, n))
+    if which == "timelike_to":
+        return H.timelike_to(G.interior(rng, n, ()))
+    raise ValueError(which)
+
+
+def hostile(rng, kind, raw, xclass, n, oshape):
+    """redraw / rescale the raw inputs of a hyperbolic point-like object
+    according to the hostile class."""
+    if xclass == "bulk":
+        return raw
+    out = G.copy_raw(raw)
+    if xclass == "mixed-sign-and-scale":
+        for k in out:
+            shp = out[k].shape[:-1] + (1,)
+            out[k] = out[k] * rng.choice([-1.0, 1.0], size=shp) * \
+                np.exp(rng.uniform(np.log(0.1), np.log(10.0), size=shp))
+        return out
+    if kind in ("H.Point", "H.PointPair", "H.Segment", "H.Polygon"):
+        for k in out:
+            if xclass == "near-boundary":
+                r = 1.0 - np.exp(rng.uniform(np.log(1e-6), np.log(1e-2), size=out[k].shape[:-1] + (1,)))
+            else:
+                r = np.exp(rng.uniform(np.log(1e-8), np.log(1e-3), size=out[k].shape[:-1] + (1,)))
+            out[k] = rh.klein_to_proj(rh.rand_sphere(rng, n, out[k].shape[:-1]) * r)
+    return out
+
+
+def wl_laws_library_maps(run, rng, idx):
+    """the same laws with A, B produced by the library's own constructors and
+    X drawn from hostile classes (negative / rescaled representatives, points
+    near the boundary, points crowded at the origin)."""
+    mon = run.monitor("action-laws")
+    hk = G.HYPERBOLIC_KINDS
+    kind = hk[idx % len(hk)]
+    r = idx // len(hk)
+    oshape = G.OBJ_SHAPES[r % len(G.OBJ_SHAPES)]
+    r //= len(G.OBJ_SHAPES)
+    wa = LIB_MAPS[r % len(LIB_MAPS)]
+    wb = LIB_MAPS[(r // len(LIB_MAPS) + r) % len(LIB_MAPS)]
+    xclass = X_CLASSES[(r // 3) % len(X_CLASSES)]
+    n = c04.dims_for(kind, r // 2, lo=2)
+    A = library_isometry(rng, n, wa)
+    B = library_isometry(rng, n, wb)
+    if A is None or B is None:
+        A = library_isometry(rng, n, "origin_to") if A is None else A
+        B = library_isometry(rng, n, "standard_loxodromic") if B is None else B
+    MA = np.array(A.proj_data, dtype=float, copy=True)
+    MB = np.array(B.proj_data, dtype=float, copy=True)
+    raw = hostile(rng, kind, G.draw(rng, kind, n, oshape), xclass, n, oshape)
+    if kind == "H.Segment" and xclass != "bulk":
+        if float(np.min(rp.klein_sep(raw["P"], raw["Q"]))) < 1e-3:
+            xclass = "bulk"
+            raw = G.draw(rng, kind, n, oshape)
+    case = {"kind": kind, "dimension": n, "object_shape": list(oshape), "A": wa, "B": wb,
+            "x_class": xclass, "X": raw, "A(row matrix)": MA, "B(row matrix)": MB}
+    run.current_case = case
+    X = G.build(kind, raw)
+    check_laws(run, mon, kind, n, oshape, (), (), "H.Isometry", False, raw, X, A, B, MA, MB,
+               case, idx + 10, label="lib:%s,%s/%s" % (wa, wb, xclass))
 
 
 def _row_product(MA, MB):
@@ -406,5 +512,6 @@ def wl_words(run, rng, idx):
 
 WORKLOADS = [
     Workload("laws", wl_laws, quick=1300, thorough=20000),
+    Workload("laws-library-maps", wl_laws_library_maps, quick=500, thorough=8000),
     Workload("words", wl_words, quick=300, thorough=5000),
 ]
